@@ -2,7 +2,7 @@
    safe.  Statements only: each theorem is closed by [exact], pinned by [Check]
    and followed by [Print Assumptions]. *)
 From Coq Require Import List ZArith NArith Bool.
-From RB Require Import Base.Val Model.Api Spec.ApiSpec Proofs.ApiRt Proofs.ApiNlri Proofs.ApiEvpn Proofs.ApiGuard Proofs.Api.
+From RB Require Import Base.Val Model.Api Spec.ApiSpec Proofs.ApiRt Proofs.ApiNlri Proofs.ApiEvpn Proofs.ApiGuard Proofs.ApiX Proofs.Api.
 Import ListNotations.
 Open Scope N_scope.
 
@@ -243,3 +243,152 @@ Check noncore_typed_from_api_wf :
     (forall b, bytes_of_typed c t = Ok (Some b) -> bytes_ok b) ->
     from_api_nc bytes_of_typed (NcTyped c t) = Ok (Some a) -> wf_attr a.
 Print Assumptions noncore_typed_from_api_wf.
+
+(* (17) Flowspec (IPv4 / IPv6, plain and VPN): net_from_api of the API form of a well-formed
+   flowspec NLRI gives the NLRI back (prefix components, operator lists with their framing bits,
+   route distinguisher). *)
+Theorem flowspec_roundtrip :
+  forall (v6p : N -> list N) (v6r : list N -> option N) (n : fs_nlri),
+    v6_contract v6p v6r -> wf_fs n ->
+    fs_from_api v6r (fs_family n) (fs_to_api v6p n) = Some n.
+Proof. exact C17_flowspec_roundtrip. Qed.
+Check flowspec_roundtrip :
+  forall (v6p : N -> list N) (v6r : list N -> option N) (n : fs_nlri),
+    v6_contract v6p v6r -> wf_fs n ->
+    fs_from_api v6r (fs_family n) (fs_to_api v6p n) = Some n.
+Print Assumptions flowspec_roundtrip.
+
+(* (18) A flowspec NLRI accepted from the API is one the flowspec decoder can produce: prefix
+   lengths within the address, zero octets beyond them, non-empty operator lists ending in the
+   end-of-list bit and free of length bits, at most 4095 octets of components. *)
+Theorem flowspec_from_api_preserves_wf :
+  forall (v6r : list N -> option N) (family : N) (x : api_fs) (n : fs_nlri),
+    v6_range v6r -> api_fs_in_range x -> fs_from_api v6r family x = Some n -> wf_fs n.
+Proof. exact C17_flowspec_from_api_preserves_wf. Qed.
+Check flowspec_from_api_preserves_wf :
+  forall (v6r : list N -> option N) (family : N) (x : api_fs) (n : fs_nlri),
+    v6_range v6r -> api_fs_in_range x -> fs_from_api v6r family x = Some n -> wf_fs n.
+Print Assumptions flowspec_from_api_preserves_wf.
+
+(* (19) SR Policy NLRI: round trip of every well-formed value, and an accepted message yields a
+   well-formed value. *)
+Theorem srpolicy_roundtrip_and_wf :
+  (forall n, wf_srp n -> srp_from_api (srp_to_api n) = Some n)
+  /\ (forall l d c e n, u32_ok d -> u32_ok c -> bytes_ok e -> srp_from_api (ASrP l d c e) = Some n -> wf_srp n).
+Proof. exact C17_srpolicy_roundtrip_and_wf. Qed.
+Check srpolicy_roundtrip_and_wf :
+  (forall n, wf_srp n -> srp_from_api (srp_to_api n) = Some n)
+  /\ (forall l d c e n, u32_ok d -> u32_ok c -> bytes_ok e -> srp_from_api (ASrP l d c e) = Some n -> wf_srp n).
+Print Assumptions srpolicy_roundtrip_and_wf.
+
+(* (20) Route Target Constraint NLRI outside the class of the open finding C17-rtc (origin AS 0
+   with any target; a target that is not type 0/1/2 with sub-type 2): the round trip is the identity. *)
+Theorem rtc_roundtrip_outside_known :
+  forall n : rtc, wf_rtc n -> ~ Known_C17_rtc n -> rtc_from_api (rtc_to_api n) = Some n.
+Proof. exact C17_rtc_roundtrip_outside_known. Qed.
+Check rtc_roundtrip_outside_known :
+  forall n : rtc, wf_rtc n -> ~ Known_C17_rtc n -> rtc_from_api (rtc_to_api n) = Some n.
+Print Assumptions rtc_roundtrip_outside_known.
+
+(* (21) ... and inside that class it is not: the 32-bit form with origin AS 0 comes back as the
+   default membership. *)
+Theorem rtc_roundtrip_refuted :
+  exists n : rtc, wf_rtc n /\ Known_C17_rtc n /\ rtc_from_api (rtc_to_api n) <> Some n.
+Proof. exact C17_rtc_roundtrip_refuted. Qed.
+Check rtc_roundtrip_refuted :
+  exists n : rtc, wf_rtc n /\ Known_C17_rtc n /\ rtc_from_api (rtc_to_api n) <> Some n.
+Print Assumptions rtc_roundtrip_refuted.
+
+(* (22) An RTC NLRI accepted from the API is well-formed (eight-octet target). *)
+Theorem rtc_from_api_preserves_wf :
+  forall (a : N) (rt : option api_rt) (n : rtc), u32_ok a -> rtc_from_api (ARtc a rt) = Some n -> wf_rtc n.
+Proof. exact C17_rtc_from_api_preserves_wf. Qed.
+Check rtc_from_api_preserves_wf :
+  forall (a : N) (rt : option api_rt) (n : rtc), u32_ok a -> rtc_from_api (ARtc a rt) = Some n -> wf_rtc n.
+Print Assumptions rtc_from_api_preserves_wf.
+
+(* (23) attr_from_api on a typed PrefixSid or TunnelEncap message always returns: the model has no
+   panicking path for any message (missing oneofs, SIDs of any length, fields of any size, any
+   number of TLVs); the answer is an attribute or a refusal. *)
+Theorem typed_from_api_total :
+  (forall x, exists r, from_api_psid x = Ok r) /\ (forall x, exists r, from_api_te x = Ok r).
+Proof. exact C17_typed_from_api_total. Qed.
+Check typed_from_api_total :
+  (forall x, exists r, from_api_psid x = Ok r) /\ (forall x, exists r, from_api_te x = Ok r).
+Print Assumptions typed_from_api_total.
+
+(* (24) An accepted PrefixSid message is stored as the encoding of a TLV tree whose fields are all
+   within their wire widths (16-octet SIDs, 16-bit behaviour, one-octet structure lengths), in which
+   no TLV / sub-TLV length field has wrapped, and whose value fits the attribute length. *)
+Theorem prefix_sid_accepted_wf :
+  forall x a, api_psid_in_range x -> from_api_psid x = Ok (Some a) ->
+    exists p, psid_from_api x = Some p /\ a = mkAttr PREFIX_SID 192 (DBin (psid_encode p)) /\
+              wf_psid p /\ ps_fits p /\ len_ok (psid_encode p).
+Proof. exact C17_prefix_sid_accepted_wf. Qed.
+Check prefix_sid_accepted_wf :
+  forall x a, api_psid_in_range x -> from_api_psid x = Ok (Some a) ->
+    exists p, psid_from_api x = Some p /\ a = mkAttr PREFIX_SID 192 (DBin (psid_encode p)) /\
+              wf_psid p /\ ps_fits p /\ len_ok (psid_encode p).
+Print Assumptions prefix_sid_accepted_wf.
+
+(* (25) The typed listing of a well-formed PREFIX_SID tree is accepted again as the same tree. *)
+Theorem prefix_sid_roundtrip :
+  forall p, wf_psid p -> psid_from_api (psid_to_api p) = Some p.
+Proof. exact C17_prefix_sid_roundtrip. Qed.
+Check prefix_sid_roundtrip :
+  forall p, wf_psid p -> psid_from_api (psid_to_api p) = Some p.
+Print Assumptions prefix_sid_roundtrip.
+
+(* (26) An accepted TunnelEncap message is stored as the encoding of tunnel TLVs whose fields are
+   all within their wire widths (16-bit tunnel type, one-octet flags / ENLP / priority / structure
+   lengths, 20-bit labels, 16-octet SIDs, UTF-8 policy name, each one-per-path sub-TLV once), in
+   which no one- or two-octet length field has wrapped, and whose value fits the attribute length. *)
+Theorem tunnel_encap_accepted_wf :
+  forall x a, api_te_in_range x -> from_api_te x = Ok (Some a) ->
+    exists l, te_from_api x = Some l /\ a = mkAttr TUNNEL_ENCAP 192 (DBin (te_encode l)) /\
+              wf_te l /\ te_fits l /\ len_ok (te_encode l).
+Proof. exact C17_tunnel_encap_accepted_wf. Qed.
+Check tunnel_encap_accepted_wf :
+  forall x a, api_te_in_range x -> from_api_te x = Ok (Some a) ->
+    exists l, te_from_api x = Some l /\ a = mkAttr TUNNEL_ENCAP 192 (DBin (te_encode l)) /\
+              wf_te l /\ te_fits l /\ len_ok (te_encode l).
+Print Assumptions tunnel_encap_accepted_wf.
+
+(* (27) The typed listing of well-formed tunnel TLVs that the typed message can carry (te_listable:
+   only flag bits the message has fields for, a type B behaviour structure under flag 0x40, no raw
+   value of another tunnel type) is accepted again as the same TLVs.  Outside te_listable attr_to_api
+   lists the raw value (theorem 15 covers that wrapper). *)
+Theorem tunnel_encap_roundtrip :
+  forall l, wf_te l -> te_listable l -> te_from_api (te_to_api l) = Some l.
+Proof. exact C17_tunnel_encap_roundtrip. Qed.
+Check tunnel_encap_roundtrip :
+  forall l, wf_te l -> te_listable l -> te_from_api (te_to_api l) = Some l.
+Print Assumptions tunnel_encap_roundtrip.
+
+(* (28) BGP-MUP NLRI (the four 3GPP-5G route types): listing a well-formed route and adding it again
+   gives the same route (address and prefix text, RD, TEID, QFI, endpoint length). *)
+Theorem mup_roundtrip :
+  forall (v6p : N -> list N) (v6r : list N -> option N) (n : mup),
+    v6_contract v6p v6r -> v6_nonempty v6p -> wf_mup n ->
+    mup_from_api v6r (mup_to_api v6p n) = Some n.
+Proof. exact C17_mup_roundtrip. Qed.
+Check mup_roundtrip :
+  forall (v6p : N -> list N) (v6r : list N -> option N) (n : mup),
+    v6_contract v6p v6r -> v6_nonempty v6p -> wf_mup n ->
+    mup_from_api v6r (mup_to_api v6p n) = Some n.
+Print Assumptions mup_roundtrip.
+
+(* (29) A MUP route accepted from the API is one the MUP decoder can produce (prefix length within
+   the address and no address octets beyond it, one-octet QFI, Type 2 endpoint length within
+   [width, width + 32] with no TEID bits beyond it) and its body fits the one-octet length of the
+   encoding. *)
+Theorem mup_from_api_preserves_wf :
+  forall (v6r : list N -> option N) (x : api_mup) (n : mup),
+    v6_range v6r -> api_mup_in_range x -> mup_from_api v6r x = Some n ->
+    wf_mup n /\ N.of_nat (length (mup_body n)) < 256.
+Proof. exact C17_mup_from_api_preserves_wf. Qed.
+Check mup_from_api_preserves_wf :
+  forall (v6r : list N -> option N) (x : api_mup) (n : mup),
+    v6_range v6r -> api_mup_in_range x -> mup_from_api v6r x = Some n ->
+    wf_mup n /\ N.of_nat (length (mup_body n)) < 256.
+Print Assumptions mup_from_api_preserves_wf.
